@@ -1,8 +1,64 @@
 package main
 
-import "fmt"
+import (
+	"fmt"
+	"os"
+	"strings"
 
+	"verif/sim"
+)
+
+// selftestDeterminism: for each named property, run the same (seed, run) range
+// several times in separate OS processes under different GOMAXPROCS and compare
+// the hash of the complete event log + tape + counters of every run.
 func selftestDeterminism(args []string, seed int64) int {
-	fmt.Println("not built yet")
-	return 2
+	if len(args) == 0 {
+		for _, c := range checks {
+			args = append(args, c.Property)
+		}
+	}
+	bad := 0
+	for _, id := range args {
+		c := findCheck(id)
+		if c == nil {
+			fmt.Fprintln(os.Stderr, "unknown property", id)
+			return 2
+		}
+		o := &orch{c: c, tier: "quick", seed: seed, noEvidence: true}
+		if err := o.build(); err != nil {
+			fatal2("build: %v", err)
+		}
+		const runs = 40
+		var ref []string
+		procs := []string{"1", "4", "16", "1", "4", "16"}
+		for rep, gmp := range procs {
+			os.Setenv("VERIF_GOMAXPROCS", gmp)
+			spec := &sim.Spec{Property: c.Property, Harness: c.Harness, Tier: "quick", Seed: seed, Worker: 0, Workers: 1,
+				MaxRuns: runs, RunTimeoutS: c.RunTimeoutS, ShrinkBudget: 0, MaxViol: 1 << 30, Params: c.Params, Trace: true}
+			res, err, _ := o.runWorker(spec, fmt.Sprintf("det%d", rep))
+			if err != nil {
+				fatal2("selftest worker: %v", err)
+			}
+			if rep == 0 {
+				ref = res.TraceHashes
+				continue
+			}
+			if strings.Join(ref, "\n") != strings.Join(res.TraceHashes, "\n") {
+				bad++
+				fmt.Printf("NONDETERMINISM property=%s GOMAXPROCS=%s rep=%d\n", id, gmp, rep)
+				for i := range ref {
+					if i < len(res.TraceHashes) && ref[i] != res.TraceHashes[i] {
+						fmt.Printf("  first difference: %s vs %s\n", ref[i], res.TraceHashes[i])
+						break
+					}
+				}
+			}
+		}
+		os.Unsetenv("VERIF_GOMAXPROCS")
+		fmt.Printf("determinism %s: %d runs x %d executions (GOMAXPROCS 1/4/16 twice), seed %d: %s\n", id, runs, len(procs), seed, map[bool]string{true: "identical", false: "DIFFERENT"}[bad == 0])
+	}
+	if bad > 0 {
+		return 2
+	}
+	return 0
 }
